@@ -374,6 +374,8 @@ func (r *run) execStep(st *Step) {
 		r.clientDelay[clientAddr(st.Client)] = time.Duration(st.DelayMs) * time.Millisecond
 		r.kvCall(n, st, 3*time.Second)
 		r.out.Probe("kv-" + st.Op)
+	case "raw":
+		r.execRaw(st)
 	case "create":
 		n := r.node(false, st.N)
 		if n == nil || !n.up {
